@@ -125,7 +125,16 @@ FILN = ["a.py", "b.pyw", "c.txt", "test_x.py", "contest.py", ".hidden.py", "setu
         "sp ace.py", "ü.py", ".py", "py", "__init__.py", "conftest.py", "m.pyw", "cfg\\x.py", "settings.py.in"]
 
 
+_hinted = [False]
+
+
 def gen_tree(rng, small=False):
+    if not _hinted[0]:
+        _hinted[0] = True
+        import diffhints
+        extra = diffhints.file_names(C.REPO)          # names built from literals of changed lines (none on the recorded tree)
+        FILN.extend(n for n in extra[:10] if n not in FILN)
+        DIRN.extend(n[:-3] for n in extra[:6] if n[:-3] not in DIRN)
     """tree = nested dict name -> node; node = "f" | {"d": {...}} | {"lf": relpath-from-link-dir} | {"dang": 1} | {"ld": [components from tree root]}"""
     root = {}
     dirs = [([], root)]          # (components, children-dict)
